@@ -348,6 +348,15 @@ def main(tier, seed):
     # the property itself on the implementation
     m = 2500 if tier == "quick" else 30000
     ocases = [gen_logic_case(rng) for _ in range(m)]
+    # negation over plain builtin classes, whose converters reject with exceptions of many kinds (OverflowError,
+    # decimal.InvalidOperation, ...), alone and as the second argument of a conjunction
+    hostile = [float("inf"), float("-inf"), float("nan"), "abc", "1e", 1e300, 10 ** 400, "", None, b"\xff", "inf", "nan", [], {}, "١"]
+    for leaf in ("int", "decimal", "float", "posint", "month", "bool", "bytes", "str"):
+        for v in hostile:
+            for kw in ({}, {"no_explicit_cast": True}, {"collect_errors": True}):
+                ocases.append(dict(spec=("not", ("leaf", leaf)), options=dict(kw), value=v))
+            ocases.append(dict(spec=("logic", "&", [("leaf", "float"), ("not", ("leaf", leaf))]), options={}, value=v))
+            ocases.append(dict(spec=("logic", "&", [("leaf", "str"), ("not", ("leaf", leaf))]), options={}, value=v))
     outs = core.pool_map(oracle, ocases)
     bad = [(c, o) for c, o in zip(ocases, outs) if o is not None and not isinstance(o, tuple)]
     hard = [(c, o) for c, o in zip(ocases, outs) if isinstance(o, tuple)]
